@@ -173,7 +173,7 @@ func exchange(c vcase, r *vres) {
 		if res.err != nil {
 			r.Err = res.err.Error()
 		}
-	case <-time.After(2500 * time.Millisecond):
+	case <-time.After(20 * time.Second): // only a genuinely blocked call gets here; generous because checks run under load
 		r.Timeout = true
 	}
 	mu.Lock()
